@@ -211,3 +211,23 @@ def gen_span_hostile(rng: random.Random) -> Dict[str, Any]:
                                       {"sub": {"reps": 1, "steps": steps}},
                                       {"k": "Reset", "q": [rng.randrange(4)]}]}
     return {"class": "span-hostile", "circuit": circ, "settings": make_settings(rng)}
+
+
+def add_shared_link_twins(rng: random.Random, circ: Dict[str, Any], p: float = 0.5, nested_only: bool = True, depth: int = 0) -> int:
+    """Append to (nested) sub-circuits a twin of one explicitly related leaf step: same kind, qubits and duration, related through the SAME
+    RelationLink instance - two distinct operations that are equal by value (seeded change C02-r13: a copy skipped operations that were
+    "already in" a value-keyed lookup).  Appending keeps every step index valid.  Returns the number of twins added."""
+    added = 0
+    for st in list(circ["steps"]):
+        if "sub" in st:
+            added += add_shared_link_twins(rng, st["sub"], p, nested_only, depth + 1)
+    if (depth > 0 or not nested_only) and rng.random() < p:
+        cands = [j for j, st in enumerate(circ["steps"]) if "sub" not in st and st.get("rel") and st["k"] not in ("DispersiveMeasure",)
+                 and "sub" not in circ["steps"][st["rel"][1]]]
+        if cands:
+            j = rng.choice(cands)
+            twin = {k: (list(v) if isinstance(v, list) else v) for k, v in circ["steps"][j].items()}
+            twin["share_link_of"] = j
+            circ["steps"].append(twin)
+            added += 1
+    return added
